@@ -1,5 +1,6 @@
------------------------------ MODULE MC_Tracer -----------------------------
-EXTENDS Tracer, Json
+\* GENERATED from MC_Tracer.tla by tools/gen_complex.py - do not edit
+------------------------------- MODULE MC_CTracer -------------------------------
+EXTENDS CTracer, Json
 CONSTANT Emit
 
 \* series helpers
